@@ -2,6 +2,7 @@ package main
 
 import (
 	"fmt"
+	"regexp"
 	"strings"
 )
 
@@ -28,6 +29,23 @@ func init() {
 		id := id
 		props[id] = func(ctx *Ctx) { checkSpec(ctx, id) }
 	}
+}
+
+var longDigits = regexp.MustCompile(`\d{19,}`)
+var upperCase = regexp.MustCompile(`[A-Z]`)
+
+// specScope: the part of the property's quantifier that is not already the reference's own
+// validity predicate.  C08: numeric identifiers of at most 18 digits; C13: letters in a single
+// case (lower) and numbers below 2^63 (go-univers keeps larger ones as text; "numbers incl. 0
+// and multi-digit" is read as machine integers); C12: numbers of at most 18 digits.
+func specScope(id, eco, s string) bool {
+	switch id {
+	case "C08", "C12":
+		return !longDigits.MatchString(s)
+	case "C13":
+		return !longDigits.MatchString(s) && !upperCase.MatchString(s)
+	}
+	return true
 }
 
 // extraSpecGens: generators aimed at the quantifier of the property (in addition to the
@@ -75,7 +93,7 @@ func checkSpec(ctx *Ctx, id string) {
 		}
 		var idx []int
 		for k, a := range ans {
-			if a == "1" {
+			if a == "1" && specScope(id, name, p.Strs[keep[k]]) {
 				idx = append(idx, keep[k])
 			}
 			if a == "nospec" {
@@ -97,6 +115,9 @@ func checkSpec(ctx *Ctx, id string) {
 			for k, a := range an {
 				ok := e.Parse(cs[k]).OK
 				res.Evaluations++
+				if a == "1" && !specScope(id, name, cs[k]) {
+					continue // must-accept direction only inside the claimed scope (numbers of <= 18 digits)
+				}
 				if ok != (a == "1") {
 					res.violate(Violation{Eco: name, Kind: "strict-grammar", Input: cs[k], Expected: fmt.Sprintf("accepted=%v (SemVer 2.0.0 BNF)", a == "1"), Actual: fmt.Sprintf("accepted=%v", ok)})
 				}
